@@ -324,6 +324,7 @@ def jacobian_edit_table(ctx, m, fn):
         elif isinstance(st, ast.Delete) and any(isinstance(t, ast.Subscript) and isinstance(t.value, ast.Name) and t.value.id == var for t in st.targets):
             edits.append((st, ('del', ast.unparse(st)[:60])))
     rows = {}
+    skippable = {}
     doms = [sorted(flow.fin[o].values, key=repr) for o in ('clock', 'heights', 'coalescent')]
     by_id = {n.id: n for n in cfg.nodes}
     for combo in itertools.product(*doms):
@@ -331,9 +332,16 @@ def jacobian_edit_table(ctx, m, fn):
         succ = specialised_reach(cfg, env)
         live = reach_from(succ, [cfg.entry.id], by_id) | {cfg.entry.id}
         rows[combo] = {ed for st, ed in edits if cfg.node_of(st).id in live}
+        # … and which of them are executed on EVERY path (a test of some other option in front of the edit leaves a way round it)
+        for st, ed in edits:
+            nid = cfg.node_of(st).id
+            if nid in live:
+                pruned = {k: [x for x in v if x.id != nid] for k, v in succ.items()}
+                if cfg.exit.id in reach_from(pruned, [cfg.entry.id], by_id):
+                    skippable.setdefault(combo, set()).add(ed)
     from props.c19_flow import const_expr
     pw = const_expr(ctx.prog.module(f"{CLI}.evolution"), ast.Name(id='COALESCENT_PIECEWISE', ctx=ast.Load()))
-    return {'rows': rows, 'n_edits': len(edits), 'piecewise': list(pw) if isinstance(pw, (list, tuple)) else []}
+    return {'rows': rows, 'skippable': skippable, 'n_edits': len(edits), 'piecewise': list(pw) if isinstance(pw, (list, tuple)) else []}
 
 
 _FLOW = {}
@@ -413,6 +421,12 @@ def check_jacobians(ctx, rep):
         rep.check('C19.J', f"{fname}::no-jacobian-for-gmrf-on-log-scale", not bad_rem and tb['n_edits'] >= 2, W, {'wrong_under': [str(e) for e in bad_rem[:6]]},
                   f"{fname}: for piecewise coalescents the smoothing prior is placed on log θ, so coalescent.theta's Jacobian must be removed, and only then; wrong under "
                   f"{bad_rem[:3]}")
+        gated = sorted((str(e), str(ed)) for e, eds in tb['skippable'].items() for ed in eds
+                       if (ed == ('append', 'tree') and e[0] is not None and e[1] == 'ratio') or (ed == ('remove', 'coalescent.theta') and e[2] in piecewise))
+        rep.check('C19.J', f"{fname}::jacobian-terms-depend-on-the-model-options-only", not gated, W, {'skippable_under': gated[:6]},
+                  f"{fname}: under (clock, heights, coalescent) = {gated[0][0] if gated else ''} the edit {gated[0][1] if gated else ''} of the Jacobian list can be skipped — it is "
+                  f"gated by something else than the options that decide whether the transform exists: the sampled parameters are still the transformed ones, so the target lacks "
+                  f"(or double counts) that log-Jacobian")
         other = sorted({ed for row in tb['rows'].values() for ed in row} - {('append', 'tree'), ('remove', 'coalescent.theta')})
         rep.check('C19.J', f"{fname}::no-other-edit-of-the-jacobian-list", not other, W, {'edits': [str(x) for x in other]},
                   f"{fname}: the Jacobian list is edited in a way the other builders do not know: {other}")
@@ -1109,6 +1123,58 @@ def check_unconstraining_covers_the_configuration(ctx, rep):
                   "create_variational_model must hand the configuration it receives to the family builders (which remove the constraints)")
 
 
+def _template(e):
+    """identifier template of an f-string / constant: formatted values become {}"""
+    if isinstance(e, ast.Constant) and isinstance(e.value, str):
+        return e.value
+    if isinstance(e, ast.JoinedStr):
+        return ''.join(v.value if isinstance(v, ast.Constant) else '{}' for v in e.values)
+    return None
+
+
+def check_jacobians_are_not_stacked_on_skipped_transforms(ctx, rep):
+    """C19.J (addition) — create_jacobians leaves out the transforms that have no density correction (the rescaled rates are a many-to-one function of the unscaled rates on
+    which the prior is placed).  A TransformedParameter whose own Jacobian IS collected (because a prior is placed on it) must then not take such a parameter as its `x`:
+    its log-Jacobian would be evaluated at the output of a map whose own volume change is (deliberately) not counted, and the target is no longer the joint density plus the
+    log-Jacobians of the transforms between the sampled parameters and the ones the priors are placed on."""
+    jm = ctx.prog.module(f"{CLI}.jacobians")
+    cj = jm.functions.get('create_jacobians')
+    if cj is None:
+        raise AnalysisError('jacobians.create_jacobians not found')
+    skipped = {c.value for n in ast.walk(cj) if isinstance(n, ast.Compare) and len(n.ops) == 1 and isinstance(n.ops[0], ast.NotEq) and "'transform'" in ast.unparse(n.left)
+               for c in n.comparators if isinstance(c, ast.Constant) and isinstance(c.value, str)}
+    if not skipped:
+        rep.undecided('C19.J', 'jacobians::skipped-transforms', where(jm, cj), 'the transforms create_jacobians leaves out are not recognised')
+        return
+    literals = []
+    for mn, m in ctx.prog.modules.items():
+        if not mn.startswith(CLI):
+            continue
+        for d in ast.walk(m.tree):
+            if isinstance(d, ast.Dict):
+                kv = {k.value: v for k, v in zip(d.keys, d.values) if isinstance(k, ast.Constant)}
+                if isinstance(kv.get('type'), ast.Constant) and kv['type'].value == 'TransformedParameter' and 'transform' in kv and 'id' in kv:
+                    literals.append((m, d, kv))
+    skipped_ids = {_template(kv['id']) for m, d, kv in literals if isinstance(kv['transform'], ast.Constant) and kv['transform'].value in skipped} - {None}
+    n = 0
+    for m, d, kv in literals:
+        if isinstance(kv['transform'], ast.Constant) and kv['transform'].value in skipped:
+            continue
+        x = kv.get('x')
+        tx = _template(x) if x is not None else None
+        if tx is None:
+            continue            # an object written inline or a local: decided where that object is built
+        n += 1
+        rep.check('C19.J', f"{m.name.replace('torchtree.', '')}::{_template(kv['id'])}::not-stacked-on-a-transform-without-jacobian", tx not in skipped_ids, where(m, x),
+                  {'x': tx, 'parameters_without_jacobian': sorted(skipped_ids)},
+                  f"the TransformedParameter `{_template(kv['id'])}` (its log-Jacobian is collected by create_jacobians) takes `{tx}` as x, the output of {sorted(skipped)} whose "
+                  f"volume change is left out on purpose: the prior placed on it is a density on a function of the rescaled values, and the target handed to the samplers is no "
+                  f"longer the joint density plus the log-Jacobians between the sampled parameters and the ones carrying priors")
+    rep.analysed['transformed_parameters_with_reference_x'] = n
+    if n < 1 or not skipped_ids:
+        rep.incomplete('C19.J', 'stacked-transforms', '', f"{n} TransformedParameter literals with a referenced x, {len(skipped_ids)} identifiers of skipped transforms")
+
+
 def check_jacobian_terms_are_evaluable(ctx, rep):
     """C19.J (addition) — create_jacobians lists every TransformedParameter of the specification except the ones its own test excludes; each listed one is *called* when the
     target is evaluated, which returns transform.log_abs_det_jacobian(x, y).  For every transform the builders put into a TransformedParameter literal: if the class's
@@ -1268,8 +1334,8 @@ def run(ctx, rep):
     rep.rule('C19.N', "tensor-only torch functions are never applied to a plain Python number in the builders")
     rep.not_decided += ["finiteness of density and gradient at the initial point", "pairwise option coverage at run time", "plugins"]
     from props import c19_ids, c19_flow
-    steps = ((check_types_and_keys, 'C19.K'), (check_jacobians, 'C19.J'), (check_jacobian_terms_are_evaluable, 'C19.J'), (check_make_unconstrained, 'C19.U'), (check_fixed_parameters_stay_fixed, 'C19.U'), (check_tree_initial_values, 'C19.U'), (check_unconstraining_covers_the_configuration, 'C19.U'), (check_advi_transforms, 'C19.U'), (c19_ids.check_ids, 'C19.R'),
-             (c19_flow.check_exhaustive, 'C19.E'), (c19_flow.check_pynum, 'C19.N'), (check_stale_loop_variables, 'C19.V'), (c19_ids.check_none_sizes, 'C19.G'), (c19_ids.check_reference_types, 'C19.D'), (c19_ids.check_side_channels, 'C19.O'), (c19_ids.check_zero_versus_missing, 'C19.Z'))
+    steps = ((check_types_and_keys, 'C19.K'), (check_jacobians, 'C19.J'), (check_jacobian_terms_are_evaluable, 'C19.J'), (check_jacobians_are_not_stacked_on_skipped_transforms, 'C19.J'), (check_make_unconstrained, 'C19.U'), (check_fixed_parameters_stay_fixed, 'C19.U'), (check_tree_initial_values, 'C19.U'), (check_unconstraining_covers_the_configuration, 'C19.U'), (check_advi_transforms, 'C19.U'), (c19_ids.check_ids, 'C19.R'),
+             (c19_flow.check_exhaustive, 'C19.E'), (c19_flow.check_pynum, 'C19.N'), (check_stale_loop_variables, 'C19.V'), (c19_ids.check_none_sizes, 'C19.G'), (c19_ids.check_reference_types, 'C19.D'), (c19_ids.check_side_channels, 'C19.O'), (c19_ids.check_first_user_is_emitted_first, 'C19.O'), (c19_ids.check_zero_versus_missing, 'C19.Z'))
     for f, rule in steps:
         try:
             f(ctx, rep)
@@ -1525,6 +1591,105 @@ def check_initial_values_off_singularities(ctx, rep):
 
 
 # ---------------------------------------------------------------------------
+# C19.L (addition) — the Python kinds an option converter can return are the kinds its consumers test for
+# ---------------------------------------------------------------------------
+CONVERTER_POSITIVE = """
+def to_number(arg):
+    try:
+        return int(arg)
+    except ValueError:
+        return float(arg)
+def conv(arg, choices):
+    try:
+        return to_number(arg)
+    except ValueError:
+        return arg
+"""
+
+
+def converter_kinds(fn, fns, depth=0):
+    """Python kinds ('int', 'float', 'str', 'list', 'none') of what a `type=` converter of argparse returns; None if a return is not understood"""
+    params = {a.arg for a in fn.args.args}
+    out = set()
+    for r in ast.walk(fn):
+        if not (isinstance(r, ast.Return) and r.value is not None):
+            continue
+        v = r.value
+        if isinstance(v, ast.Call) and isinstance(v.func, ast.Name) and v.func.id in ('int', 'float', 'str', 'list'):
+            out.add(v.func.id)
+        elif isinstance(v, ast.Name) and v.id in params:
+            out.add('str')
+        elif isinstance(v, ast.Constant):
+            out.add('none' if v.value is None else type(v.value).__name__)
+        elif isinstance(v, (ast.List, ast.ListComp)):
+            out.add('list')
+        elif isinstance(v, ast.Call) and isinstance(v.func, ast.Name) and v.func.id in fns and depth < 3:
+            sub = converter_kinds(fns[v.func.id][1], fns, depth + 1)
+            if sub is None:
+                return None
+            out |= sub
+        else:
+            return None
+    return out
+
+
+def check_converter_kinds_are_handled(ctx, rep, mods, fns):
+    t = ast.parse(CONVERTER_POSITIVE)
+    sample = {f.name: (None, f) for f in t.body}
+    if converter_kinds(sample['conv'][1], sample) != {'int', 'float', 'str'}:
+        raise AnalysisError('C19.L self-check: kinds returned by the embedded converter are not inferred')
+    by_dest = {}
+    for mn, m in mods.items():
+        for c in ast.walk(m.tree):
+            if not (isinstance(c, ast.Call) and isinstance(c.func, ast.Attribute) and c.func.attr == 'add_argument'):
+                continue
+            ty = next((k.value for k in c.keywords if k.arg == 'type'), None)
+            if ty is None:
+                continue
+            callee = None
+            if isinstance(ty, ast.Name) and ty.id in fns:
+                callee = ty.id
+            elif isinstance(ty, ast.Lambda) and isinstance(ty.body, ast.Call) and isinstance(ty.body.func, ast.Name) and ty.body.func.id in fns:
+                callee = ty.body.func.id
+            if callee is None:
+                continue
+            dest = next((k.value.value for k in c.keywords if k.arg == 'dest' and isinstance(k.value, ast.Constant)), None)
+            if dest is None:
+                longs = [a.value for a in c.args if isinstance(a, ast.Constant) and isinstance(a.value, str) and a.value.startswith('--')]
+                dest = longs[0][2:].replace('-', '_') if longs else None
+            if dest is not None:
+                by_dest.setdefault(dest, []).append((m, c, callee))
+    COVER = {'float': {'float'}, 'int': {'int'}, 'str': {'str'}, 'list': {'list'}, 'numbers.Number': {'int', 'float'}, 'numbers.Real': {'int', 'float'}, 'bool': {'bool'}}
+    n = 0
+    for mn, m in sorted(mods.items()):
+        for c in ast.walk(m.tree):
+            if not (isinstance(c, ast.Call) and isinstance(c.func, ast.Name) and c.func.id == 'isinstance' and len(c.args) == 2):
+                continue
+            a = c.args[0]
+            if not (isinstance(a, ast.Attribute) and isinstance(a.value, ast.Name) and a.value.id in ('arg', 'args') and a.attr in by_dest):
+                continue
+            tys = c.args[1].elts if isinstance(c.args[1], ast.Tuple) else [c.args[1]]
+            covered = set()
+            for ty in tys:
+                covered |= COVER.get(ast.unparse(ty), set())
+            for m2, addc, callee in by_dest[a.attr]:
+                ks = converter_kinds(fns[callee][1], fns)
+                key = f"{mn.replace('torchtree.', '')}::{norm_text(c)[:50]}::numbers-of-{callee}-are-all-recognised"
+                if ks is None:
+                    rep.undecided('C19.L', key, where(m, c), f"kinds returned by the converter {callee} not inferred")
+                    continue
+                n += 1
+                numeric = ks & {'int', 'float'}
+                missed = numeric - covered if covered & {'int', 'float'} else set()
+                rep.check('C19.L', key, not missed, where(m, c), {'converter': callee, 'returns': sorted(ks), 'test_covers': sorted(covered)},
+                          f"`{norm_text(c)[:50]}` decides whether a number was given for --{a.attr}, but its converter {callee} can return {sorted(missed)} as well: that number is "
+                          f"taken for 'no number given' and the default initial value is used silently instead of the requested one")
+    rep.analysed['converter_kind_tests'] = n
+    if n < 1:
+        rep.incomplete('C19.L', 'converters', '', 'no isinstance test of an option with a converter found (arg.brlens_init expected)')
+
+
+# ---------------------------------------------------------------------------
 # C19.L — a list is never compared with a string
 # ---------------------------------------------------------------------------
 def check_list_compared_with_string(ctx, rep):
@@ -1616,5 +1781,6 @@ def check_list_compared_with_string(ctx, rep):
                                     f"{name}: `{norm_text(c)[:60]}` compares `{ast.unparse(a)[:30]}` with a string, but that value can be a LIST (the result of a split handed on "
                                     f"unchanged): the comparison is then false whatever the list holds, the branch is skipped and — without an else — nothing is emitted in its place")
     rep.ok('C19.L', 'cli::string-comparisons-have-string-operands', '', {'comparisons_with_known_kinds': n})
+    check_converter_kinds_are_handled(ctx, rep, mods, fns)
     if 'parse_distribution' in fns and not isinstance(ret_kinds.get('parse_distribution'), tuple):
         rep.incomplete('C19.L', 'parse_distribution', '', 'return kinds of parse_distribution not inferred')
